@@ -9,6 +9,8 @@ fuzz_target!(|data: &[u8]| {
     let mut u = Unstructured::new(data);
     let Ok(t) = u.arbitrary::<(Vec<u8>, Vec<u8>, Vec<u8>, bool)>() else { return };
     let m = |v: Vec<u8>, cap: usize| -> Vec<u8> { v.into_iter().take(cap).map(|x| x % 3).collect() };
-    let c = eng::fold_case(&(m(t.0, 48), m(t.1, 8), m(t.2, 8), t.3));
+    let k = 2 + (t.2.first().copied().unwrap_or(0) % 7);
+    let m = |v: Vec<u8>, cap: usize| -> Vec<u8> { v.into_iter().take(cap).map(|x| x % k).collect() };
+    let c = eng::fold_case(&(m(t.0, 48), m(t.1, 20), m(t.2, 3), t.3));
     if let Err(e) = eng::run_case(&c) { panic!("C04 violation: {e}"); }
 });
